@@ -12,6 +12,8 @@
 -/
 import ASV.Proofs.PackingBuild
 import ASV.Proofs.PackingGenes
+import ASV.Proofs.PackingRegion
+import ASV.Proofs.PackingJson
 namespace ASV.C19
 open ASV ASV.Packing ASV.Packing.Spec
 
@@ -113,6 +115,62 @@ theorem areas_order_preserved (c : Ctx) (r : RegionIn) (out : List Area) (hin : 
   · simp only [List.mem_cons, List.not_mem_nil, or_false] at hm
     rcases hm with rfl | rfl <;> omega
 
+/-- `to_minimal_json` loses nothing: reading the written object back (missing neighbouring
+    coordinate = the core's, missing string = empty, missing group = 0) gives the area again —
+    in particular a height of 0, a start of 0 and an end of 0 are always written -/
+theorem minimal_json_roundtrip (a : Area) : readArea a.toMinimalJson = some a :=
+  minimal_json_lossless a
+
+/-! ### get_unique_protoclusters: from the region's children to the drawing -/
+
+/-- `region.get_unique_protoclusters()` delivers exactly the protoclusters of the region's
+    candidate clusters: every object once however many candidates share it, and every *distinct*
+    object — two protoclusters that agree in extent and product (a detected cluster and a
+    sideloaded annotation of it, two clusters of one product with different cores) are both
+    there.  (Gathering them under their sort key instead of by identity falsifies this.) -/
+theorem unique_protoclusters_complete (c : Ctx) (cands : List Cand)
+    (hid : idsConsistent (cands.flatMap (·.members)) = true) :
+    (uniqueProtoclusters c cands).Perm (regionProtos cands) :=
+  uniqueProtoclusters_perm c cands hid
+
+/-- the executable form the driver evaluates on the delivered list -/
+theorem unique_protoclusters_delivered (c : Ctx) (cands : List Cand)
+    (hid : idsConsistent (cands.flatMap (·.members)) = true) :
+    deliveredOk cands (uniqueProtoclusters c cands) = true := by
+  simp only [deliveredOk, List.isPerm_iff]
+  exact (uniqueProtoclusters_perm c cands hid).map _
+
+/-- … in non-decreasing order of `(start [+ L after the origin], -length, product)` -/
+theorem unique_protoclusters_sorted (c : Ctx) (cands : List Cand) :
+    sortedByKey c ((uniqueProtoclusters c cands).map (·.feat)) = true :=
+  sortByKey_sorted c _
+
+/-- every protocluster of the region's candidate clusters (by identity), every shown candidate
+    and every subregion is drawn exactly once, whatever order the protoclusters are delivered in
+    (CPython's set order decides between protoclusters with equal keys) -/
+theorem drawn_exactly_once_any_order (c : Ctx) (subs : List Feat) (cands : List Cand)
+    (delivered : List PObj) (out : List Area) (hp : delivered.Perm (regionProtos cands))
+    (hin : inputOK c (regionSpecIn subs cands) = true)
+    (h : buildAreaRows c ⟨subs, cands.map (·.feat), delivered.map (·.feat)⟩ = some out) :
+    Complete c.L (regionSpecIn subs cands) out :=
+  complete_of_perm (hp.map _)
+    (drawn_exactly_once c _ out (inputOK_of_perm (hp.map _) hin) h)
+
+/-- the property's first clause from the region's children: `build_area_rows` of a region draws
+    every protocluster of its candidate clusters, every shown candidate and every subregion
+    exactly once (or as two linked halves) -/
+theorem every_protocluster_drawn_once (c : Ctx) (subs : List Feat) (cands : List Cand)
+    (out : List Area) (hid : idsConsistent (cands.flatMap (·.members)) = true)
+    (hin : inputOK c (regionSpecIn subs cands) = true) (h : buildRegion c subs cands = some out) :
+    Complete c.L (regionSpecIn subs cands) out :=
+  drawn_exactly_once_any_order c subs cands _ out (uniqueProtoclusters_perm c cands hid) hin h
+
+/-- … and never refuses such a region -/
+theorem build_region_total (c : Ctx) (subs : List Feat) (cands : List Cand)
+    (hid : idsConsistent (cands.flatMap (·.members)) = true)
+    (hin : inputOK c (regionSpecIn subs cands) = true) : ∃ out, buildRegion c subs cands = some out :=
+  build_total c _ (inputOK_of_perm ((uniqueProtoclusters_perm c cands hid).map _) hin)
+
 /-! ### convert_regions / convert_cds_features -/
 
 /-- the `start`/`end` numbers written for a region describe its drawing range: from the region's
@@ -148,6 +206,23 @@ theorem order_preserved (c : Ctx) (v : GeneView) (gid : Int) (hc : regionOK c = 
     subst ho'; exact hpl
   · rw [ho] at hab
     simp at hab
+
+/-- the three gene statements with the hypothesis on the *locations*: for genes of one or two
+    exons (incl. forward and reverse genes running over the origin) well-formedness of the
+    location inside the region is all that is needed — `Feature.start/end`, `crosses_origin` and
+    `is_contained_by(region.location.parts[-1])` are computed by the model from the location -/
+theorem genes_drawn_from_locations (c : Ctx) (genes : List Loc) (hc : regionOK c = true)
+    (hg : ∀ g ∈ genes, geneOK c g = true) :
+    orfsInRange c (convertCds c (genes.map (geneView c))) = true ∧
+    orfsCompleteB c.L (genes.map (geneView c)) (convertCds c (genes.map (geneView c))) = true ∧
+    ∀ g ∈ genes, ∀ gid o, convertOne c (geneView c g) gid = [o] → orfPlaced c (geneView c g) o = true := by
+  have hv : ∀ v ∈ genes.map (geneView c), viewOK c v = true := by
+    intro v hv
+    simp only [List.mem_map] at hv
+    obtain ⟨g, hgm, rfl⟩ := hv
+    exact geneView_ok hc (hg g hgm)
+  exact ⟨genes_in_range c _ hc hv, genes_exactly_once c _ hc hv,
+    fun g hgm gid o ho => order_preserved c _ gid hc (geneView_ok hc (hg g hgm)) o ho⟩
 
 /-! ### non-vacuity: the hypotheses hold on concrete layouts that reach every branch -/
 
@@ -204,5 +279,34 @@ example : (convertCds exWhole [⟨990, 12, true, true, 1⟩, ⟨985, 7, true, tr
     [((991, 1000, 0), (false, 1)), ((1, 12, 1), (true, 1)), ((986, 1000, -1), (false, 2)),
      ((1, 7, 0), (true, 2))] := by
   decide
+
+/-- a detected T1PKS protocluster, a sideloaded annotation of it on the same coordinates (other
+    core), and an NRPS one; the T1PKS pair is shared by two candidate clusters.  All three are
+    delivered (the shared ones once) and drawn. -/
+def exTwins : List Cand :=
+  let det : PObj := ⟨0, ⟨sl 500 1500, .proto, sl 800 1200, false, "T1PKS"⟩⟩
+  let side : PObj := ⟨1, ⟨sl 500 1500, .proto, sl 900 1100, false, "T1PKS"⟩⟩
+  let other : PObj := ⟨2, ⟨sl 1300 2200, .proto, sl 1600 1900, false, "NRPS"⟩⟩
+  [⟨⟨sl 500 2200, .cand, sl 800 1900, false, "CC 1"⟩, [det, side, other]⟩,
+   ⟨⟨sl 500 1500, .cand, sl 800 1200, false, "CC 2"⟩, [det, side]⟩,
+   ⟨⟨sl 1300 2200, .cand, sl 1600 1900, true, "CC 3"⟩, [other]⟩]
+def exTwinsCtx : Ctx := ⟨sl 500 2200, 3000, false⟩
+
+example : idsConsistent (exTwins.flatMap (·.members)) = true ∧
+    inputOK exTwinsCtx (regionSpecIn [] exTwins) = true := by decide
+example : (uniqueProtoclusters exTwinsCtx exTwins).map (·.id) = [0, 1, 2] := by decide
+example : ((buildRegion exTwinsCtx [] exTwins).map
+      (·.map fun a => (a.kind, a.start, a.end, a.height))) =
+    some [(.cand, 500, 2200, 0), (.cand, 500, 1500, 2),
+          (.proto, 800, 1200, 4), (.proto, 900, 1100, 6), (.proto, 1600, 1900, 8)] := by decide
+
+/-- genes as locations: forward and reverse genes over the origin, a two-exon reverse gene -/
+def exGeneLocs : List Loc :=
+  [.simple ⟨960, 980, .rev⟩, .compound [⟨990, 1000, .fwd⟩, ⟨0, 12, .fwd⟩],
+   .compound [⟨0, 7, .rev⟩, ⟨985, 1000, .rev⟩], .compound [⟨30, 40, .rev⟩, ⟨10, 20, .rev⟩]]
+example : exGeneLocs.all (geneOK exCross) = true ∧ exGeneLocs.all (geneOK exWhole) = true := by decide
+example : exGeneLocs.map (geneView exCross) =
+    [⟨960, 980, false, false, -1⟩, ⟨990, 12, true, false, 1⟩, ⟨985, 7, true, false, -1⟩,
+     ⟨10, 40, false, true, -1⟩] := by decide
 
 end ASV.C19
